@@ -48,6 +48,16 @@ class P:
         """a number outside the small-int cache, computed on every access: equal values are different objects"""
         return self.a * 1000 + 7
 
+    @property
+    def t20(self):
+        """a collection of 22 numbers (the numbers >= a up to a+21): long enough for size thresholds"""
+        return tuple(range(self.a, self.a + 22))
+
+    @property
+    def u20(self):
+        """a second long collection of the same owner (the 24 numbers up to b)"""
+        return tuple(range(self.b - 23, self.b + 1))
+
     def inc(self):
         return self.a + 1
 
@@ -111,6 +121,16 @@ class PE:
         """a number outside the small-int cache, computed on every access: equal values are different objects"""
         return self.a * 1000 + 7
 
+    @property
+    def t20(self):
+        """a collection of 22 numbers (the numbers >= a up to a+21): long enough for size thresholds"""
+        return tuple(range(self.a, self.a + 22))
+
+    @property
+    def u20(self):
+        """a second long collection of the same owner (the 24 numbers up to b)"""
+        return tuple(range(self.b - 23, self.b + 1))
+
     def inc(self):
         return self.a + 1
 
@@ -157,6 +177,16 @@ class Q:
     def k1000(self):
         """a number outside the small-int cache, computed on every access: equal values are different objects"""
         return self.a * 1000 + 7
+
+    @property
+    def t20(self):
+        """a collection of 22 numbers (the numbers >= a up to a+21): long enough for size thresholds"""
+        return tuple(range(self.a, self.a + 22))
+
+    @property
+    def u20(self):
+        """a second long collection of the same owner (the 24 numbers up to b)"""
+        return tuple(range(self.b - 23, self.b + 1))
 
     def inc(self):
         return self.a + 1
